@@ -120,7 +120,7 @@ def run(ov, names, features='svg', jobs=16, timeout=1500, playback=True):
                 if features:
                     cmd2 += ['--features', features]
                 try:
-                    r2 = subprocess.run(cmd2, cwd=ov.dir, env=ov.env(), capture_output=True, text=True, timeout=timeout)
+                    r2 = subprocess.run(cmd2, cwd=ov.dir, env=ov.env(), capture_output=True, text=True, timeout=min(timeout, 600))
                     pv = _parse_playback(r2.stdout)
                     if pv is not None:
                         res.values, res.raw_values = pv
